@@ -134,12 +134,9 @@ def rules(fx, rep):
         if p and fx.body(p):
             rep.fn(p)
             try:
-                I, res = bitlin.run(fx, p, [('byref', P), ('byref', Agg([Lin.atom('stale%d' % i) for i in range(256)]))])
-                out = res[0][2].get(2) if len(res) == 1 else None
-                t256 = bitlin.table256()
-                ok = isinstance(out, Agg) and len(out.items) == 256 and all(isinstance(x, Lin) and x == y for x, y in zip(out.items, t256.items))
-                rep.check(ok, 'BITLIN', '%s:precomp_256' % g, 'for any initial buffer, pre[i] = sum_{b in i} 2^(32 b) P for all 256 entries',
-                          'the 256-entry table is not the subset-sum table for every initial buffer', fx.fn(p)['span'], construct=p)
+                I, why = bitlin.check_precomp_256(fx, p)
+                rep.check(why is None, 'BITLIN', '%s:precomp_256' % g, 'for any initial buffer, pre[i] = sum_{b in i} 2^(32 b) P for all 256 entries (on every path)',
+                          why or '', fx.fn(p)['span'], construct=p)
             except (exp.NotDerivable, exp.Budget) as e:
                 rep.fail('BITLIN', '%s:precomp_256' % g, 'not derivable: %s' % e, fx.fn(p)['span'])
 
